@@ -46,11 +46,49 @@ pub fn plant_circuit(g: &mut WDg<isize>, picks: &[u16], w: isize) {
     g.arcs.sort();
 }
 
+/// A digraph whose shortest-path tree is one Hamiltonian path visiting the
+/// vertices in mostly descending id order (so a sweep over the arcs in
+/// (tail, head) order advances the path by few hops and the |V|-1 round budget
+/// has little or no slack), plus extra arcs that never shorten a path (weight
+/// >= the potential difference, ties included): many heads are relaxed more
+/// than once per sweep while the budget is tight.  Returns the source.
+pub fn tight_budget(g: &mut WDg<isize>, swaps: usize) -> Option<usize> {
+    let n = g.order;
+    if n < 4 {
+        return None;
+    }
+    // two descending runs (at most one ascent): the ids in `mask` descending,
+    // then the others descending; now and then one extra swap
+    let mask = g.arcs.iter().take(8).fold(swaps as u64, |a, x| a.wrapping_mul(0x9E37_79B9).wrapping_add((x.0 * 31 + x.1) as u64 ^ x.2 as u64));
+    let mut perm: Vec<usize> = (0..n).rev().filter(|i| mask >> (i % 48) & 1 == 1).collect();
+    perm.extend((0..n).rev().filter(|i| mask >> (i % 48) & 1 == 0));
+    if swaps % 4 == 3 {
+        perm.swap(swaps % n, (swaps / 4) % n);
+    }
+    let pick = |i: usize| g.arcs.get(i % g.arcs.len().max(1)).map_or(1, |a| a.2);
+    let mut pd = vec![0_isize; n];
+    let mut arcs: Vec<(usize, usize, isize)> = vec![];
+    for i in 0..n - 1 {
+        let w = pick(i).rem_euclid(11) - 3;
+        pd[perm[i + 1]] = pd[perm[i]] + w;
+        arcs.push((perm[i], perm[i + 1], w));
+    }
+        let extra = n;
+    for &(u, v, w) in g.arcs.iter().take(extra) {
+        if u != v && !arcs.iter().any(|a| (a.0, a.1) == (u, v)) {
+            arcs.push((u, v, pd[v] - pd[u] + [0, 0, 1, 3, 9][w.rem_euclid(5) as usize]));
+        }
+    }
+    arcs.sort();
+    g.arcs = arcs;
+    Some(perm[0])
+}
+
 impl Prop for C07 {
     type Case = Case;
     const ID: &'static str = "C07";
     const NUM: u64 = 7;
-    const RULE: &'static str = "AdjacencyListWeighted<isize> digraphs (order 1..14 quick / 1..48 thorough; uniform densities and 15 structured families incl. reverse paths whose arc order forces |V|-1 sweeps) with weight classes non-negative, potential-based (many negative arcs, no negative circuit), small signed, few-negative, -1/0/1, optionally a planted negative circuit; source in range (uniform, last vertex, first vertex); enum leg: every digraph of order <=3 with weights {-1,0,2} x every source. Arc-count residues mod 4 are tracked labels. About one random case in 60..150 has a large order (17..140, incl. 63..66 and 127..130). distances() is called twice on the same instance and must answer the same. Non-trivial = (a negative arc and the synchronous reference DP needs >=3 rounds) or a negative circuit exists that the source cannot reach; distinct = distinct serialised case.";
+    const RULE: &'static str = "AdjacencyListWeighted<isize> digraphs (order 1..14 quick / 1..48 thorough; uniform densities and 15 structured families incl. reverse paths whose arc order forces |V|-1 sweeps) with weight classes non-negative, potential-based (many negative arcs, no negative circuit), small signed, few-negative, -1/0/1, optionally a planted negative circuit; half of the cases up to order 16 are 'tight-budget' digraphs (the shortest-path tree is a Hamiltonian path in mostly descending id order, so the |V|-1 sweep budget has little or no slack, plus extra arcs that tie or lose against the tree so that heads are relaxed several times per sweep); source in range (uniform, last vertex, first vertex); enum leg: every digraph of order <=3 with weights {-1,0,2} x every source. Arc-count residues mod 4 are tracked labels. About one random case in 60..150 has a large order (17..140, incl. 63..66 and 127..130). distances() is called twice on the same instance and must answer the same. Non-trivial = (a negative arc and the synchronous reference DP needs >=3 rounds) or a negative circuit exists that the source cannot reach; distinct = distinct serialised case.";
     const ASSUMPTIONS: &'static [&'static str] = &[
         "walk sums stay far inside isize (|w| < 100, order <= 48)",
         "when a negative circuit exists but is not reachable from the source the property allows None or a correct Some; both are accepted",
@@ -61,7 +99,7 @@ impl Prop for C07 {
             Leg {
                 name: "random",
                 kind: LegKind::Random {
-                    cases: tier.pick(60000, 500000),
+                    cases: tier.pick(400000, 1500000),
                 },
                 workers: 16,
                 build: Build::Normal,
@@ -115,6 +153,12 @@ impl Prop for C07 {
                     1 => {
                         plant_circuit(&mut g, &picks, 0);
                         family.push_str("+zerocircuit");
+                    }
+                    2..=5 if g.order <= 16 => {
+                        let swaps = (plant / 8) as usize % g.order;
+                        if let Some(s) = tight_budget(&mut g, swaps) {
+                            return Case { g, s, family: "tight-budget".into() };
+                        }
                     }
                     _ => {}
                 }
